@@ -1927,7 +1927,12 @@ func (sgi *ShardGroupInfo) unmarshal(pb *internal.ShardGroupInfo) {
 	sgi.DeletedAt = UnmarshalTime(pb.GetDeletedAt())
 
 	if pb != nil && pb.TruncatedAt != nil {
-		sgi.TruncatedAt = UnmarshalTime(pb.GetTruncatedAt())
+		if i := pb.GetTruncatedAt(); i == 0 {
+			// The field is only written for truncated groups; 0 is the epoch.
+			sgi.TruncatedAt = time.Unix(0, 0).UTC()
+		} else {
+			sgi.TruncatedAt = UnmarshalTime(i)
+		}
 	}
 
 	if len(pb.GetShards()) > 0 {
